@@ -838,7 +838,20 @@ impl World {
                     let mut r = crate::rng::Rng::new(self.seed ^ ((step.id as u64) << 20) ^ *tag as u64);
                     let mime = ["text/plain", "application/pdf", "audio/mpeg", "video/mp4", "image/png", "image/jpeg", "image/gif", "image/webp"][(*tag % 8) as usize];
                     let data = if mime.starts_with("image/") { sim_image(&mut r, mime) } else { r.bytes(size) };
-                    let fname = format!("file-{}-{tag}.bin", step.id);
+                    // MIME spellings: the library canonicalises what it accepts
+                    let spelled: String = match (tag.wrapping_mul(2_654_435_761) >> 8) % 6 {
+                        1 => mime.to_uppercase(),
+                        2 => format!("  {mime} "),
+                        3 if !mime.starts_with("image/") => format!("{mime}; charset=utf-8"),
+                        4 => {
+                            let mut c = mime.chars();
+                            c.next().map(|f| f.to_uppercase().collect::<String>() + c.as_str()).unwrap_or_default()
+                        }
+                        _ => mime.to_string(),
+                    };
+                    let mime_canonical = mime;
+                    let mime: &str = &spelled;
+                    let fname = if (tag.wrapping_mul(40_503) >> 4) % 3 == 1 { format!("File-{}-{tag}.BIN", step.id) } else { format!("file-{}-{tag}.bin", step.id) };
                     let up = with_mdk!(self.nodes[node].mdk(), m => m.media_manager(gid.clone()).encrypt_for_upload(&data, mime, &fname).map(|u| {
                         let t = m.media_manager(gid.clone()).create_imeta_tag(&u, &format!("https://blossom.sim.example/{}", hex::encode(u.encrypted_hash)));
                         (u.encrypted_data, t)
@@ -847,7 +860,10 @@ impl World {
                         Ok((enc, t)) => {
                             // image families are validated against the bytes and may be re-encoded
                             // (metadata stripped): the reference is what the sender itself decrypts
-                            let reference = if mime.starts_with("image/") {
+                            if spelled != mime_canonical {
+                                self.probe("media_noncanonical_mime_spelling");
+                            }
+                            let reference = if mime_canonical.starts_with("image/") {
                                 let own: Result<Vec<u8>, String> = with_mdk!(self.nodes[node].mdk(), m => (|| {
                                     let mm = m.media_manager(gid.clone());
                                     let rf = mm.parse_imeta_tag(&t).map_err(|e| format!("parse: {e}"))?;
@@ -860,7 +876,7 @@ impl World {
                             } else {
                                 data
                             };
-                            self.probe(if mime.starts_with("image/") { "media_image_family" } else { "media_other_family" });
+                            self.probe(if mime_canonical.starts_with("image/") { "media_image_family" } else { "media_other_family" });
                             tags.push(t);
                             blob = Some((enc, reference));
                         }
@@ -1252,6 +1268,10 @@ impl World {
         o
     }
 
+    /// the id the next step will get
+    pub fn peek_step_id(&self) -> u32 {
+        self.next_step_id
+    }
     pub fn step_id(&mut self) -> u32 {
         let s = self.next_step_id;
         self.next_step_id += 1;
